@@ -1427,8 +1427,18 @@ def vec_new(m, a, ci):
     return Vec((), head_ident(ci.T) if ci.T else 'Vec')
 
 
+ADDRESS_SPACE_BITS = 47     # user address space of the 64-bit targets typstyle ships for
+
+
 @reg('Vec::with_capacity', 'SmallVec::with_capacity')
 def vec_with_capacity(m, a, ci):
+    # documented: panics ("capacity overflow") when the capacity exceeds isize::MAX bytes; below that the allocation itself fails
+    # (abort) for any request beyond the address space.  Element size >= 1 byte is assumed, so this under-approximates the failures.
+    n = simp(a[0])
+    if is_sym(n):
+        m.panic_if(z3.UGE(n, z3.BitVecVal(1 << ADDRESS_SPACE_BITS, n.size())), 'Vec::with_capacity: capacity overflow / allocation failure (capacity >= 2^%d elements)' % ADDRESS_SPACE_BITS)
+    elif n >= (1 << ADDRESS_SPACE_BITS):
+        raise Panic('Vec::with_capacity: capacity overflow')
     return Vec((), head_ident(ci.T) if ci.T else 'Vec')
 
 
